@@ -21,6 +21,7 @@ children = `k - 1` splits along the right spine).  Soundness holds for every `k`
 import RegexVerif.Model.Spec
 import RegexVerif.Model.Finders
 import RegexVerif.Model.Facts
+import RegexVerif.Model.SetFacts
 
 namespace RegexVerif.LoopFacts
 open RegexVerif.Spec RegexVerif.Finders
@@ -168,16 +169,24 @@ structure SymLal where
   lit : List Pred
 deriving Repr
 
+/-- when the first item is a loop with a positive minimum over something that is not a single character,
+    its first iteration: the leaves of the body (nothing is known behind them) -/
+def firstIter (items : List Pat) : List Pat :=
+  match items with
+  | .quant _ _ _ (.chr _) :: _ => items
+  | .quant _ lo _ body :: _ => if 0 < lo then (leaves 64 body).dropWhile isGap else items
+  | _ => items
+
 /-- `findLiteralFollowingLeadingLoop`: the loop, zero-width children, then a run of single characters (or a
-    loop with a positive minimum over one character, which contributes its first iteration).  The
-    non-overlap condition of the Go analysis (the literal's first character is not in the loop set) is not
-    needed for the soundness of the fact. -/
+    loop with a positive minimum, which contributes its first iteration).  The non-overlap condition of the
+    Go analysis (the literal's first character is not in the loop set) is not needed for the soundness of
+    the fact. -/
 def lalOf (k : Nat) (p : Pat) : Option SymLal :=
   match spine (k - 1) (unwrap p) with
   | first :: rest =>
     match unboundedLoop? first with
     | some (P, _) =>
-      let items := (rest.flatMap (leaves 64)).dropWhile isGap
+      let items := firstIter ((rest.flatMap (leaves 64)).dropWhile isGap)
       match predRun items with
       | Q :: Qs => some ⟨P, Q :: Qs⟩
       | [] =>
